@@ -5,7 +5,7 @@
    Only statements here; proofs live in Proofs/C02*.v. *)
 From Coq Require Import List NArith ZArith Bool String.
 From GoGit Require Import Base.Out Model.ObjLines Model.Ident Model.Commit Model.Tag
-     Spec.GitFields Spec.ObjWf Proofs.C02Dec Proofs.C02Ident Proofs.C02Commit Proofs.C02Tag.
+     Spec.GitFields Spec.ObjWf Proofs.C02Dec Proofs.C02Ident Proofs.C02Commit Proofs.C02Tag Proofs.C02Message.
 Import ListNotations.
 Local Open Scope N_scope.
 
@@ -67,6 +67,13 @@ Print Assumptions C02_tag_reencode_refuted.
 (* ---- "the decoded fields are the ones git itself reports": FALSE of every
         stored object (author behind another header; several '<'), witnesses
         checked against git 2.39.5 by the C-git suite ---- *)
+(* TRUE without any guard for the message: for every stored commit that
+   go-git decodes and git parses, Commit.Message is the message git reports *)
+Theorem C02_message_matches_git : forall raw c g m,
+  decode_commit raw = Ok c -> git_log_fields raw = GOk g -> gl_body g = Some m -> c_msg c = m.
+Proof. exact message_matches_git. Qed.
+Print Assumptions C02_message_matches_git.
+
 Definition author_differs (b : bytes) : Prop :=
   exists d g, decode_commit b = Ok d /\ git_log_fields b = GOk g /\
               (id_name (c_author d), id_email (c_author d)) <> (gl_an g, gl_ae g).
